@@ -156,6 +156,10 @@ def fold(eng, ver, name):
             eng.facts.add(r >= 0)
         if name == "absnc":
             eng.facts.add(r >= 0)
+        if name == "aden" and getattr(eng.facts, "origin", False) and ver.ksort == T.Key:
+            # L13-origin: at the origin only the constant term contributes
+            ek = T.empty_key()
+            eng.facts.add(r == z3.If(z3.Select(ver.dom, ek), _real(z3.Select(ver.val, ek)), z3.RealVal(0)))
         if ver.subdict_of is not None and F.kind == "all":
             eng.facts.add(z3.Implies(fold(eng, ver.subdict_of, name), r))
         if ver.subdict_of is not None and name == "size":
